@@ -184,6 +184,7 @@ func (t *Queue[T]) Poll(waitIfEmpty bool) T {
 		select {
 		// react if the queue was shutdown while waiting
 		case <-t.ctx.Done():
+			verifYield("poll:ctx", t, polledElement.Value)
 			// abort if the pending elements are supposed to be canceled
 			if t.shutdownFlags.HasBits(CancelPendingElements) {
 				timeutil.CleanupTimer(timer)
@@ -195,6 +196,7 @@ func (t *Queue[T]) Poll(waitIfEmpty bool) T {
 			// immediately return the value if the pending timeouts are supposed to be ignored
 			if t.shutdownFlags.HasBits(IgnorePendingTimeouts) {
 				timeutil.CleanupTimer(timer)
+				verifYield("poll:ignore", t, polledElement.Value)
 				// a cancellation that completed before this point wins (several channels can be ready at once)
 				if polledElement.Value.isCanceled() {
 					continue
@@ -212,6 +214,7 @@ func (t *Queue[T]) Poll(waitIfEmpty bool) T {
 
 			// return the result after the time is reached
 			case <-timer.C:
+				verifYield("poll:timer2", t, polledElement.Value)
 				// a cancellation that completed before this point wins (both channels can be ready at once)
 				if polledElement.Value.isCanceled() {
 					continue
@@ -227,6 +230,7 @@ func (t *Queue[T]) Poll(waitIfEmpty bool) T {
 
 		// return the result after the time is reached
 		case <-timer.C:
+			verifYield("poll:timer", t, polledElement.Value)
 			// a cancellation that completed before this point wins (both channels can be ready at once)
 			if polledElement.Value.isCanceled() {
 				continue
